@@ -53,7 +53,7 @@ def run(ctx):
                            "spec": "two instances fed the same history give identical results", "implementation": "replicas differ"},
                           "replicas of history %d differ" % i)
             found = True
-        elif not decsuite.same_shape(mo.get(i), base.get(2 * i)):
+        elif not decsuite.same_shape(mo.get(i), base.get(2 * i), upto_crash=True):
             broken.append("correspondence threads: single-instance model trace differs from the implementation on history %d" % i)
     # the same bytes through a source that segments them differently (short reads of 1..3 bytes, as a pipe, a socket
     # or a chained reader may deliver them): the trace must not depend on the segmentation
@@ -70,7 +70,7 @@ def run(ctx):
     sm = decsuite.run_model(ctx, "c17-seg-model", [c for c in seg if c[0] % 3 == 0])
     for (idx, o, ops) in seg:
         if idx % 3 == 0:
-            if not decsuite.same_shape(sm.get(idx), sg.get(idx)):
+            if not decsuite.same_shape(sm.get(idx), sg.get(idx), upto_crash=True):
                 broken.append("correspondence threads: model trace differs from the implementation on streamed history %d" % idx)
             continue
         whole = sg.get(idx - idx % 3)
